@@ -141,3 +141,10 @@ def r3(ctx: Ctx) -> None:
         for s in sites:
             ok = caller_ok(ctx, s.caller, lambda g: g.qualname == HO or (g.name == name and g.cls is not None and ctx.program.is_subclass(g.cls.name, "Agent")))
             ctx.check(ok, s.caller, s.node, f"caller of {name}", f"{HO} (or an agent's own override delegating to its base)", s.caller.qualname)
+
+
+@rule("C11.H1", "mechanism shared with C18: call backs are routed through the id table of the simulator, which holds one agent per id (a second agent with an id in use is rejected, not stored over the first)", "T3 guard before the first store (registry part of C18.R2)", floor=3)
+def h1(ctx: Ctx) -> None:
+    from .c18 import check_registries
+
+    check_registries(ctx)
